@@ -28,7 +28,7 @@ ASSUMPTIONS = [
 REQUIRED_COUNTERS = ('schedules_executed', 'preemptions_taken', 'responses_compared', 'wsdl_builds_counted')
 SHARD_TIMEOUT = {'quick': 900, 'thorough': 3000}
 
-WORKLOADS = ('wsdl2', 'wsdl3_rpc', 'wsdl_rpc', 'rpc_pa', 'rpc_pa_json', 'lxml_mix', 'json_mix', 'xml_3', 'msgpack_mix', 'soap12_mix', 'multiref', 'json_pos', 'msgpackrpc_pos', 'mixin_xml')
+WORKLOADS = ('wsdl2', 'wsdl3_rpc', 'wsdl_rpc', 'rpc_pa', 'rpc_pa_json', 'lxml_mix', 'json_mix', 'xml_3', 'msgpack_mix', 'soap12_mix', 'multiref', 'json_pos', 'msgpackrpc_pos', 'mixin_xml', 'poly_xml')
 
 
 def shards(tier, seed):
@@ -132,7 +132,7 @@ class Universe(object):
         self.name = name
         self.builds = 0
         kind = {'wsdl2': 'soap11', 'wsdl3_rpc': 'soap11', 'wsdl_rpc': 'soap11', 'rpc_pa': 'soap11', 'rpc_pa_json': 'json',
-                'lxml_mix': 'soap11', 'json_mix': 'json', 'xml_3': 'xml', 'msgpack_mix': 'msgpack', 'soap12_mix': 'soap12', 'multiref': 'soap11', 'json_pos': 'json', 'msgpackrpc_pos': 'msgpackrpc', 'mixin_xml': 'xml'}[name]
+                'lxml_mix': 'soap11', 'json_mix': 'json', 'xml_3': 'xml', 'msgpack_mix': 'msgpack', 'soap12_mix': 'soap12', 'multiref': 'soap11', 'json_pos': 'json', 'msgpackrpc_pos': 'msgpackrpc', 'mixin_xml': 'xml', 'poly_xml': 'xml'}[name]
         self.kind = kind
         protcls = {'soap11': Soap11, 'soap12': Soap12, 'json': JsonDocument, 'xml': XmlDocument, 'msgpack': MessagePackDocument,
                    'msgpackrpc': MessagePackRpc}[kind]
@@ -155,7 +155,26 @@ class Universe(object):
             x = Integer
             items = Array(Item)
 
+        # subclasses that live in namespaces of their own, one known to the application by its parent alone and one handed over with classes=[...]:
+        # with polymorphic output the first answers that carry them are the first uses of those namespaces
+        class ItemX(Item):
+            __namespace__ = 'urn:vf:c12:x'
+            px = Integer
+
+        class Loose(ComplexModel):
+            __namespace__ = 'urn:vf:c12:y'
+            q = Integer
+
+        class ItemY(Item):
+            __namespace__ = 'urn:vf:c12:z'
+            py = Unicode
+            loose = Loose
+
         class Svc(Service):
+            @rpc(Integer, _returns=Item)
+            def sub(ctx, n):
+                return ItemX(a=n, b='x', px=n) if n % 2 else ItemY(a=n, b='y', py='t', loose=Loose(q=n))
+
             @rpc(Integer, _returns=Integer)
             def echo(ctx, n):
                 return n
@@ -181,7 +200,9 @@ class Universe(object):
             swapped = swap_threading()
         try:
             inp, outp = M.make_protocols(kind, validator)
-            app = Application([Svc], M.TNS, name='C12App', in_protocol=inp, out_protocol=outp)
+            if name == 'poly_xml':
+                inp, outp = XmlDocument(polymorphic=True), XmlDocument(polymorphic=True)
+            app = Application([Svc], M.TNS, name='C12App', in_protocol=inp, out_protocol=outp, classes=[Loose, ItemY] if name == 'poly_xml' else ())
             self.wsgi = W.WsgiApplication(app)
         finally:
             if coop:
@@ -213,6 +234,7 @@ class Universe(object):
         self.requests = {
             'json_pos': [positional('wrap', [1, 'one', ['p', 'q']], 5), positional('wrap', [2, 'two', ['r']], 6), positional('echo_item', [3, 'three', []])],
             'msgpackrpc_pos': [R(kind, 'wrap', item1 + [('x', 5)]), R(kind, 'wrap', item2 + [('x', 6)]), R(kind, 'echo_item', item1)],
+            'poly_xml': [R(kind, 'sub', [('n', 1)]), R(kind, 'sub', [('n', 2)]), R(kind, 'sub', [('n', 3)])],
             'mixin_xml': [R(kind, 'echo_item', item1), R(kind, 'wrap', item2 + [('x', 3)]), R(kind, 'echo_item', item2)],
             'multiref': [multiref(1, 'alice'), multiref(2, 'bob'), R(kind, 'echo_item', item1)],
             'wsdl2': [wsdl, wsdl],
